@@ -230,6 +230,35 @@ var dmMutOps = []dmMutOp{
 		out[i] = lines[i][:loc[0]] + nw + lines[i][loc[1]:]
 		return out, true
 	}},
+	{"move-nested-resource", func(r *lib.Rng, lines []string) ([]string, bool) {
+		// `<- r5` -> `<- q3.one` / `<- q3.arr[0]` / `<- q3.opt`: move out of a nested position
+		re := regexp.MustCompile(`<-\s*r\d+\b`)
+		i := dmPickLine(r, lines, func(l string) bool { return re.MatchString(l) })
+		if i < 0 {
+			return nil, false
+		}
+		var qs []string
+		seen := map[string]bool{}
+		for _, l := range lines[:i] {
+			for _, id := range regexp.MustCompile(`\b(?:q|rs|qr)\d+\b`).FindAllString(l, -1) {
+				if !seen[id] {
+					seen[id] = true
+					qs = append(qs, id)
+				}
+			}
+		}
+		if len(qs) == 0 {
+			return nil, false
+		}
+		q := qs[r.Intn(len(qs))]
+		path := q + []string{".one", ".arr[0]", ".opt"}[r.Intn(3)]
+		if strings.HasPrefix(q, "rs") {
+			path = q + "[0]"
+		}
+		out := append([]string{}, lines...)
+		out[i] = dmReplaceNth(re, lines[i], 0, func(m []string) string { return "<- " + path })
+		return out, true
+	}},
 	{"drop-statement", func(r *lib.Rng, lines []string) ([]string, bool) {
 		i := dmPickLine(r, lines, dmIsPlainStmt)
 		if i < 0 {
